@@ -1275,7 +1275,7 @@ impl SparqlDatabase {
         // know some, but every chunk is parsed by a private database: give each the full table.
         let mut known_prefixes = self.prefixes.clone();
         for raw_line in &lines {
-            let line = raw_line.split('#').next().unwrap_or("").trim();
+            let line = strip_n3_comment(raw_line).trim();
             if line.starts_with("@prefix") {
                 let line = line.trim_start_matches("@prefix").trim_end_matches('.');
                 let parts: Vec<&str> = line.split_whitespace().collect();
@@ -1301,11 +1301,7 @@ impl SparqlDatabase {
                 let mut statement = String::new();
 
                 for raw_line in chunk {
-                    let mut line = raw_line.as_str();
-                    if let Some(comment_start) = line.find('#') {
-                        line = &line[..comment_start];
-                        line = line.trim();
-                    }
+                    let line = strip_n3_comment(raw_line.as_str()).trim();
                     if line.is_empty() {
                         continue;
                     }
@@ -2208,4 +2204,39 @@ impl SparqlDatabase {
             object.unwrap()
         )
     }
+}
+
+/// The part of an N3 line before its `#` comment. A `#` inside an `<IRI>` (hash namespaces such as
+/// `rdf-schema#`) or inside a quoted literal is part of the term, not the start of a comment.
+fn strip_n3_comment(line: &str) -> &str {
+    let mut in_iri = false;
+    let mut quote: Option<char> = None;
+    let mut escaped = false;
+    let mut previous = ' ';
+    for (index, character) in line.char_indices() {
+        if let Some(delimiter) = quote {
+            if escaped {
+                escaped = false;
+            } else if character == '\\' {
+                escaped = true;
+            } else if character == delimiter {
+                quote = None;
+            }
+        } else if in_iri {
+            // IRIs contain no whitespace, so a stray `<` never swallows the rest of the line.
+            if character == '>' || character.is_whitespace() {
+                in_iri = false;
+            }
+        } else {
+            match character {
+                '"' | '\'' => quote = Some(character),
+                // `<<` opens a quoted triple, not an IRI.
+                '<' => in_iri = previous != '<' && !line[index + 1..].starts_with('<'),
+                '#' => return &line[..index],
+                _ => {}
+            }
+        }
+        previous = character;
+    }
+    line
 }
